@@ -776,7 +776,14 @@ class Saver:
 
         finally:
             if not self.closed:
-                self.close(wait_for=pending)
+                try:
+                    self.close(wait_for=pending)
+                except Exception as e:
+                    # Closing (last metadata, final rename) can fail too:
+                    # log it for the final check, unless we are failing already
+                    if self.got_exception is None:
+                        self.got_exception = e
+                    raise
 
     @staticmethod
     def _check_done(pending):
